@@ -13,6 +13,8 @@ from zope.interface.adapter import AdapterRegistry
 from .common import wmod, newworld
 
 LOG = []
+NESTING = []
+OTHER = [None]      # another interface, for nested adaptation inside a hook
 
 
 class Boom(Exception):
@@ -20,8 +22,13 @@ class Boom(Exception):
 
 
 CONF = ['absent', 'none', 'value', 'raise_val', 'raise_type_inner', 'attr_attrerr',
-        'attr_other', 'raise_attrerr_inner', 'value_falsy']
-HOOK = ['none', 'v', 'raise', 'falsy']
+        'attr_other', 'raise_attrerr_inner', 'value_falsy',
+        # a TypeError raised directly in the body; a staticmethod; a plain
+        # function stored on the instance (both are called with the interface only)
+        'raise_type_direct', 'static_value', 'instance_func_value']
+# 'nested' = a hook that itself adapts something else (which reaches the hook
+# stage again) before declining
+HOOK = ['none', 'v', 'raise', 'falsy', 'nested']
 ALT = ['absent', 'value', 'none_pos', 'value_kw', 'none_kw']
 # how the interface gets its __adapt__: the standard one ('std'; 'std+method'
 # = with an unrelated interfacemethod, which also creates a custom metaclass),
@@ -124,6 +131,18 @@ def make_obj(I, conf, provided):
         def b():
             raise AttributeError('inside')
         ns['__conform__'] = mk(b)
+    elif conf == 'raise_type_direct':
+        def __conform__(self, iface):
+            LOG.append('conform')
+            raise TypeError('directly in the body')
+        ns['__conform__'] = __conform__
+    elif conf == 'static_value':
+        def sconform(iface):
+            LOG.append('conform')
+            if iface is not I:
+                LOG.append('conform-wrong-arg')
+            return 'CONFORMED'
+        ns['__conform__'] = staticmethod(sconform)
     elif conf == 'attr_attrerr':
         def g(self):
             LOG.append('conform-get')
@@ -138,6 +157,13 @@ def make_obj(I, conf, provided):
     if provided == 'class':
         implementer(I)(K)
     o = K()
+    if conf == 'instance_func_value':
+        def iconform(iface):
+            LOG.append('conform')
+            if iface is not I:
+                LOG.append('conform-wrong-arg')
+            return 'CONFORMED'
+        o.__conform__ = iconform
     if provided == 'direct':
         directlyProvides(o, I)
     return o
@@ -145,10 +171,22 @@ def make_obj(I, conf, provided):
 
 def make_hook(kind, i, I, obj):
     def hook(iface, ob):
+        if NESTING:
+            return None          # the nested adaptation of an unrelated object: decline
         LOG.append('hook%d' % i)
         if iface is not I or ob is not obj:
             LOG.append('hook-wrong-args')
         if kind == 'none':
+            return None
+        if kind == 'nested':
+            # look at some unrelated object first; it cannot be adapted either,
+            # and that adaptation runs through the hooks as well
+            if not NESTING:
+                NESTING.append(1)
+                try:
+                    OTHER[0](object(), None)
+                finally:
+                    NESTING.pop()
             return None
         if kind == 'v':
             return 'H%d' % i
@@ -161,10 +199,13 @@ def make_hook(kind, i, I, obj):
 def expected(conf, provided, hooks, alt, adapt):
     adapt = 'std' if adapt.startswith('std') else adapt.partition(':')[0]
     lg = []
-    if conf in ('none', 'value', 'raise_val', 'raise_type_inner', 'raise_attrerr_inner', 'value_falsy'):
+    if conf in ('none', 'value', 'raise_val', 'raise_type_inner', 'raise_attrerr_inner', 'value_falsy',
+                'raise_type_direct', 'static_value', 'instance_func_value'):
         lg.append('conform')
-        if conf == 'value':
+        if conf in ('value', 'static_value', 'instance_func_value'):
             return ('ok', 'CONFORMED', lg)
+        if conf == 'raise_type_direct':
+            return ('exc', 'TypeError', lg)
         if conf == 'value_falsy':
             return ('ok', 0, lg)
         if conf == 'raise_val':
@@ -211,6 +252,7 @@ def eval_case(case):
     adapt, conf, provided, hooks, alt = case
     newworld()
     I = make_iface(adapt)
+    OTHER[0] = InterfaceClass('J', (Interface,), {'__module__': wmod()})
     obj = make_obj(I, conf, provided)
     saved = list(adapter_hooks)
     adapter_hooks[:] = [make_hook(k, i, I, obj) for i, k in enumerate(hooks)]
